@@ -340,6 +340,25 @@ func init() {
 				if strings.Join(wantRcpts, "\x00") != strings.Join(rcpts, "\x00") {
 					c.Violate("c06-recipients", fmt.Sprintf("GetRecipients()=%v, To+Cc+Bcc=%v", rcpts, wantRcpts), spc)
 				}
+				// what the accepted calls set, book-kept from the call sequence alone (a call that returned an
+				// error sets nothing): the envelope must be exactly that
+				led := addrLedger(m, spc.Addr)
+				var ledRcpts []string
+				for _, k := range []int{2, 3, 4} {
+					ledRcpts = append(ledRcpts, led[k]...)
+				}
+				if strings.Join(ledRcpts, "\x00") != strings.Join(rcpts, "\x00") {
+					c.Violate("c06-not-what-was-set", fmt.Sprintf("envelope recipients %v, but the accepted calls set To+Cc+Bcc=%v", rcpts, ledRcpts), spc)
+				}
+				wantSender := ""
+				if len(led[1]) > 0 {
+					wantSender = led[1][0]
+				} else if len(led[0]) > 0 {
+					wantSender = led[0][0]
+				}
+				if serr == nil && sender != wantSender || serr != nil && wantSender != "" {
+					c.Violate("c06-not-what-was-set", fmt.Sprintf("envelope sender %q (err %v), but the accepted calls set %q", sender, serr, wantSender), spc)
+				}
 				for _, a := range m.GetAddrHeader(mail.HeaderBcc) {
 					if bytes.Contains(res.out, []byte(a.Address)) && !inOther(m, a.Address) {
 						c.Violate("c06-bcc-leak", "a Bcc address appears in the rendered message: "+a.Address, spc)
@@ -443,4 +462,43 @@ func checkParams(c *Ctx, sc *SmtpScenario, verb, rest string) {
 	if rest != "" && !strings.HasPrefix(rest, " ") {
 		c.Violate("c05-extra-parameter", fmt.Sprintf("garbage %q after the path", rest), sc)
 	}
+}
+
+// addrLedger book-keeps, from the call sequence alone, the bare addresses each address header holds:
+// a replacing call whose values all parse replaces the list (From keeps the first address only, and an
+// empty From list changes nothing), a call with an unparseable value returns an error and changes
+// nothing, the IgnoreInvalid variants keep the parseable values, Add* appends one address.
+func addrLedger(m *mail.Msg, ops []AddrOp) map[int][]string {
+	led := map[int][]string{}
+	for _, a := range ops {
+		oks, _, bares := parseAll(m, a)
+		var good []string
+		all := true
+		for i, o := range oks {
+			if o == "1" {
+				good = append(good, bares[i])
+			} else {
+				all = false
+			}
+		}
+		switch a.Mode {
+		case "set":
+			if !all {
+				continue
+			}
+		case "add":
+			if !all {
+				continue
+			}
+			good = append(append([]string(nil), led[a.Kind]...), good...)
+		}
+		if a.Kind == 0 {
+			if len(good) > 0 {
+				led[0] = good[:1]
+			}
+			continue
+		}
+		led[a.Kind] = good
+	}
+	return led
 }
